@@ -101,6 +101,7 @@ func strideRules(c *props.Ctx, p *c09path, blockSite *site) {
 					default:
 						c.R.Hold("SYM-STRIDE", key, c.P.Pos(st.Pos()), fmt.Sprintf("make(…, %d) = %d³", n, S))
 					}
+					blockFill(c, fmt.Sprintf("%s→%s#fill", c.P.FuncName(fn), storage.Name()), sv.val, st, blockSite.inside)
 				}
 			}
 		})
@@ -516,4 +517,75 @@ func blockElem(v ssa.Value, depth int) (*types.Var, ssa.Value, bool) {
 		}
 	}
 	return nil, nil, false
+}
+
+// blockFill (FIELD-OUT for the canvas): the value a cell of a fresh block holds before any field is added —
+// what the march reads in the padding and wherever no field reaches. It must be finite (the interpolation
+// identity SYM-ALG decides is one over the reals; Inf−Inf and Inf/Inf are NaN) and not on the inside of the
+// sign convention. make() zero-fills; an explicit fill before the append is judged by its value.
+func blockFill(c *props.Ctx, key string, block ssa.Value, at *ssa.Store, belowIsInside bool) {
+	var fills []*ssa.Store
+	for _, r := range ssau.Refs(block) {
+		if ia, ok := r.(*ssa.IndexAddr); ok {
+			for _, r2 := range ssau.Refs(ia) {
+				if st, ok := r2.(*ssa.Store); ok && st.Addr == ssa.Value(ia) {
+					fills = append(fills, st)
+				}
+			}
+		}
+	}
+	pos := c.P.Pos(at.Pos())
+	if len(fills) == 0 {
+		c.R.Hold("FIELD-OUT", key, pos, "a fresh block is zero-filled by make: the value of a cell no field wrote is the finite constant 0 (outside for thresholds ≤ 0, POL-1)")
+		return
+	}
+	for _, st := range fills {
+		p := c.P.Pos(st.Pos())
+		if nonFinite(st.Val, 0) {
+			c.R.Violate("FIELD-OUT", key, p, "fresh blocks are filled with a non-finite value (math.Inf / math.NaN): the sign test still works, but AddField's `+=` onto it and the vertex interpolation (threshold − C[a]) / (C[b] − C[a]) — SYM-ALG's identity holds for finite samples only — produce NaN: NaN vertices and an open surface")
+			continue
+		}
+		k, ok := constRat(st.Val)
+		switch {
+		case !ok:
+			c.R.Undecide("FIELD-OUT", key, p, "fresh blocks are filled with a value that is not a constant: whether it is finite and outside is not decided")
+		case (k.Sign() < 0) == belowIsInside && k.Sign() != 0:
+			c.R.Violate("FIELD-OUT", key, p, fmt.Sprintf("fresh blocks are filled with %s, which lies on the inside of the march's sign convention for threshold 0: every cell no field reaches is solid", k.FloatString(3)))
+		default:
+			c.R.Hold("FIELD-OUT", key, p, fmt.Sprintf("fresh blocks are filled with the finite constant %s (outside for threshold 0)", k.FloatString(3)))
+		}
+	}
+}
+
+// nonFinite: the value is, or is computed from, math.Inf(…) / math.NaN().
+func nonFinite(v ssa.Value, depth int) bool {
+	if depth > 6 {
+		return false
+	}
+	switch t := v.(type) {
+	case *ssa.Call:
+		if o := ssau.CalleeObj(t); o != nil && o.Pkg() != nil && o.Pkg().Path() == "math" && (o.Name() == "Inf" || o.Name() == "NaN") {
+			return true
+		}
+		for _, a := range t.Call.Args {
+			if nonFinite(a, depth+1) {
+				return true
+			}
+		}
+	case *ssa.BinOp:
+		return nonFinite(t.X, depth+1) || nonFinite(t.Y, depth+1)
+	case *ssa.UnOp:
+		if t.Op == token.SUB {
+			return nonFinite(t.X, depth+1)
+		}
+	case *ssa.Convert:
+		return nonFinite(t.X, depth+1)
+	case *ssa.Phi:
+		for _, e := range t.Edges {
+			if e != ssa.Value(t) && nonFinite(e, depth+1) {
+				return true
+			}
+		}
+	}
+	return false
 }
